@@ -69,9 +69,11 @@ func newIvlMachine(root *ssa.Function) *ivlMachine {
 			if g == nil || (g.Blocks == nil && Origin(g).Blocks == nil) || PkgPathOf(g) != PkgPathOf(root) {
 				return false
 			}
-			// interval accessors and the constructor are modelled, not followed
+			// interval getters and the constructor are modelled, not followed
 			if g.Signature.Recv() != nil && isIvlType(g.Signature.Recv().Type()) {
-				return false
+				if _, isGetter := GetterOf(g); isGetter {
+					return false
+				}
 			}
 			return NameOf(Origin(g)) != "New"
 		},
